@@ -354,6 +354,9 @@ pub fn build(sc: &Scenario, opts: &BuildOpts) -> Built {
     crate::hashseed::set(sc.hash_seed);
     #[cfg(feature = "sim")]
     rayon::set_machine_size(sc.pool.machine);
+    // real rayon reads the size of a default-built pool from the environment (a configuration seam)
+    #[cfg(feature = "real")]
+    std::env::set_var("RAYON_NUM_THREADS", sc.pool.machine.to_string());
     let ctx = Ctx::new(infos(&sc.regs), sc.resmap.clone());
     ctx.fine.store(sc.fine_points, Ordering::SeqCst);
     let mut world = World::empty();
